@@ -453,7 +453,7 @@ def main(argv=None):
             violations.append({'obligation': full, 'replay': path, 'no_input': True})
             undecided.remove(full)
     skipped_cc = {(n['contract'], n['case']) for n in not_run}
-    skipped_c = {n['contract'] for n in not_run}
+    skipped_c = {n['contract'] for n in not_run} | (set(names) - set(sym_names))     # not finished / thorough-tier contracts in a quick run
 
     def _not_run(l):
         # '<name>@<contract>[<case>]'
